@@ -15,7 +15,7 @@ func init() {
 		Rule:   "each run = one engine, a drawn table (2-6 rows x 1-3 families x several columns and versions, binary qualifiers and values) and 8 filtered ReadRows: one directed leaf filter (17 kinds x valid/invalid, visited by seeded permutation), one directed depth-2 composition (chain/interleave/condition x leaf x leaf, by permutation), the rest random trees of depth <= 3 with boundary arguments; every returned row is compared with the evaluator's admissible outputs; distinct = hash of (engine, filter shapes); non-trivial = a filter with at least one composite node or an invalid argument",
 		Real:   []string{"bttest ReadRows, filterRow, includeCell, modifyCell, newRegexp (binaryregexp)", "all three engines"},
 		Stub:   []string{"gRPC transport", "the row-sample random source (drawn from the rng stream)"},
-		Assume: []string{"family order and the order of equal-timestamp duplicates after an interleave are unspecified (compared as multisets)", "count-sensitive filters are not generated after an interleave in a chain", "filters whose validity the statement leaves open (limit 0, start > end ranges, strip_value=false) may be rejected or return nothing", "an invalid node that evaluation never reaches may be rejected (eager) or ignored (lazy)", "no 0x0a byte in data or patterns"},
+		Assume: []string{"family order and the order of equal-timestamp duplicates after an interleave are unspecified (compared as multisets)", "count-sensitive filters are not generated after an interleave in a chain", "filters whose validity the statement leaves open (limit 0, start > end ranges, strip_value=false) may be rejected or return nothing", "an invalid node that evaluation never reaches may be rejected (eager) or ignored (lazy)"},
 		Run:    runC05,
 		Subspaces: func() map[string]int {
 			return map[string]int{"c05.leaf": leafKinds * 2, "c05.depth2": 3 * leafKinds * leafKinds}
@@ -24,9 +24,9 @@ func init() {
 	expectedProbes["C05"] = []string{"c05.required_invalid", "c05.permitted_invalid", "c05.sample_node", "c05.row_dropped", "c05.interleave_dups", "c05.label", "c05.condition_false_branch"}
 }
 
-var c05Quals = []string{"q", "", "q\x00", "r", "\xff", "a.b", "\x00\x01"}
-var c05Vals = []string{"v", "", "\x00", "\xff\xfe", "abc", "ab", "a.c", "12345678", "v1", "v2", "x(y", "[z]"}
-var c05Keys = []string{"a", "a\x00", "ab", "b", "\x00", "\xff", "row.1", "row-2"}
+var c05Quals = []string{"q", "", "q\x00", "r", "\xff", "a.b", "\x00\x01", "q\nr"}
+var c05Vals = []string{"v", "", "\x00", "\xff\xfe", "abc", "ab", "a.c", "12345678", "v1", "v2", "x(y", "[z]", "a\nc", "\n"}
+var c05Keys = []string{"a", "a\x00", "ab", "b", "\x00", "\xff", "row.1", "row-2", "row\n1"}
 
 // buildFilterTable writes a drawn table through MutateRows and returns the observed rows.
 func buildFilterTable(r *Run, w *BTWorld, tbl string, fams []string, d *draws) ([]ORow, bool) {
@@ -38,7 +38,7 @@ func buildFilterTable(r *Run, w *BTWorld, tbl string, fams []string, d *draws) (
 		nCells := 1 + d.n(7)
 		for c := 0; c < 8; c++ {
 			m := &btpb.Mutation{Mutation: &btpb.Mutation_SetCell_{SetCell: &btpb.Mutation_SetCell{
-				FamilyName: fams[d.n(len(fams))], ColumnQualifier: []byte(c05Quals[d.w(5, 2, 2, 3, 1, 1, 1)]),
+				FamilyName: fams[d.n(len(fams))], ColumnQualifier: []byte(c05Quals[d.w(5, 2, 2, 3, 1, 1, 1, 2)]),
 				TimestampMicros: int64(1+d.n(4)) * 1000, Value: []byte(c05Vals[d.n(len(c05Vals))])}}}
 			if c < nCells {
 				muts = append(muts, m)
